@@ -1125,6 +1125,24 @@ mut("ok-store-forget-order", "benign", ["C08"], "AtomicRc::store: forget before 
 mut("ok-cascade-threshold-4", "benign", ["C02", "C06"], "cascade threshold raised to 4 (more conservative)",
     [ed(U, "curr_epoch as isize - 3)", "curr_epoch as isize - 4)")])
 
+# ---------------------------------------------------------------- patches from independent sub-agents
+HERE = os.path.dirname(os.path.abspath(__file__))
+VERIF = os.path.dirname(HERE)
+import glob
+# behaviour-preserving refactorings written by sub-agents told to keep every interleaving's behaviour (selftest/refactors/)
+for f in sorted(glob.glob(os.path.join(HERE, "refactors", "*.diff"))):
+    name = os.path.basename(f)[:-5]
+    mut("ok-agent-" + name, "benign", [], "independent behaviour-preserving refactoring %s (see refactors/%s-NOTES.md)" % (name, name.split("-")[0]),
+        [{"patch": os.path.relpath(f, VERIF)}])
+# breaking changes seeded by sub-agents given only a property text (seeded/*/patch.diff): regression entries
+for mp in sorted(glob.glob(os.path.join(VERIF, "seeded", "*", "meta.json"))):
+    m = json.load(open(mp))
+    if not m.get("caught_by"):
+        continue
+    sd = os.path.dirname(mp)
+    mut("seed-" + m["id"], "break", [m["property"]], "seeded change %s: %s" % (m["id"], m.get("change", "")[:160]),
+        [{"patch": os.path.relpath(os.path.join(sd, "patch.diff"), VERIF)}], m["caught_by"])
+
 os.makedirs(os.path.dirname(os.path.abspath(__file__)), exist_ok=True)
 with open(os.path.join(os.path.dirname(os.path.abspath(__file__)), "corpus.json"), "w") as f:
     json.dump({"mutants": M}, f, indent=1)
